@@ -317,6 +317,7 @@ func c08Projects(ctx *Ctx, r *Rng) {
 			}
 		}
 	}
+	cases += includeDags(ctx, r.Fork())
 	// faulty include targets must be rejected with a diagnostic
 	for _, p := range includeGraphs(r)[:13] {
 		res := RunProject(p, false)
@@ -330,4 +331,123 @@ func c08Projects(ctx *Ctx, r *Rng) {
 		}
 	}
 	ctx.Cov.Component("cut documents vs uncut documents; faulty include targets (specification on the implementation)", cases, len(ctx.Violations), "")
+}
+
+
+// includeDags: cycle-free include graphs in which files are SHARED — a file that itself includes others is included
+// several times, from different files, at different depths, in both orders (deep use first / shallow use first) and from
+// sub-directories. INCLUDE is textual: the project must give the verdict and the catalog of the flattened text.
+func includeDags(ctx *Ctx, r *Rng) int {
+	n := ctx.Budget(120, 6000)
+	cases := 0
+	for it := 0; it < n && len(ctx.Violations) < 10; it++ {
+		k := 3 + r.Intn(4)
+		name := func(i int) string {
+			if i%3 == 2 {
+				return fmt.Sprintf("sub/f%d.jst", i)
+			}
+			return fmt.Sprintf("f%d.jst", i)
+		}
+		// the name of file j as written in file i (relative to the directory of i)
+		rel := func(i, j int) (string, bool) {
+			di, dj := i%3 == 2 && i > 0, j%3 == 2
+			switch {
+			case di == dj && di:
+				return fmt.Sprintf("f%d.jst", j), true
+			case !di:
+				return name(j), true
+			}
+			return "", false // a file of the sub-directory cannot name a file of the parent directory (no "..")
+		}
+		lines := make([][]string, k+1) // lines[0] = root
+		for i := k; i >= 0; i-- {
+			var ll []string
+			m := 1 + r.Intn(3)
+			for q := 0; q < m; q++ {
+				switch r.Intn(4) {
+				case 0, 1:
+					if i < k {
+						j := i + 1 + r.Intn(k-i)
+						if w, ok := rel(i, j); ok {
+							ll = append(ll, "INCLUDE "+w)
+							continue
+						}
+					}
+					fallthrough
+				case 2:
+					ll = append(ll, fmt.Sprintf("%d any", 200+i*3+q))
+				default:
+					ll = append(ll, "Query", fmt.Sprintf("{\"q%d\": %d}", i, q))
+				}
+			}
+			lines[i] = ll
+		}
+		// the root: methods whose children come from the files
+		var root []string
+		root = append(root, "JSIGHT 0.3")
+		for v, verb := range []string{"GET", "POST", "PUT"}[:1+r.Intn(3)] {
+			root = append(root, fmt.Sprintf("%s /m%d", verb, v))
+			for q := 0; q < 1+r.Intn(2); q++ {
+				j := 1 + r.Intn(k)
+				root = append(root, "INCLUDE "+name(j))
+			}
+			root = append(root, "599 any")
+		}
+		files := map[string][]byte{"root.jst": []byte(strings.Join(root, "\n") + "\n")}
+		for i := 1; i <= k; i++ {
+			files[name(i)] = []byte(strings.Join(lines[i], "\n") + "\n")
+		}
+		// the flattened text
+		var flat func(text string, self int, depth int) string
+		flat = func(text string, self int, depth int) string {
+			if depth > 12 {
+				return text
+			}
+			var out []string
+			for _, l := range strings.Split(strings.TrimRight(text, "\n"), "\n") {
+				if strings.HasPrefix(l, "INCLUDE ") {
+					w := strings.TrimPrefix(l, "INCLUDE ")
+					full := w
+					if self > 0 && self%3 == 2 {
+						full = "sub/" + w
+					}
+					var j int
+					fmt.Sscanf(full[strings.LastIndex(full, "f")+1:], "%d", &j)
+					out = append(out, strings.TrimRight(flat(string(files[full]), j, depth+1), "\n"))
+				} else {
+					out = append(out, l)
+				}
+			}
+			return strings.Join(out, "\n") + "\n"
+		}
+		single := flat(string(files["root.jst"]), 0, 0)
+		p := Project{Files: files, Root: "root.jst"}
+		res := RunProject(p, false)
+		one := RunProject(SingleFile([]byte(single)), false)
+		cases++
+		var key []byte
+		for kk, v := range files {
+			key = append(append(key, kk...), v...)
+		}
+		ctx.Cov.Count(key, true)
+		ctx.Cov.Hit("include DAG with shared files")
+		if res.Panic != "" || one.Panic != "" {
+			continue
+		}
+		in := projectInput(p)
+		in["op"] = "project"
+		in["flattened"] = single
+		same := res.Accepted() == one.Accepted()
+		if same && res.Accepted() {
+			same = string(res.JSON) == string(one.JSON)
+		} else if same {
+			same = res.Err.Msg == one.Err.Msg
+		}
+		if !same {
+			ctx.Violate(Violation{Kind: "wrong-output", Site: "INCLUDE", What: "a cycle-free project with shared included files does not give the result of its flattened text: project: " + res.Verdict() + "; flattened: " + one.Verdict(),
+				Input: in, Observed: res.Verdict(), Expected: one.Verdict(), Signature: "dag-differs:" + firstWords(res.Verdict(), 3)})
+		}
+	}
+	ctx.Cov.Component("cycle-free include graphs with shared files vs their flattened text (specification on the implementation)", cases, len(ctx.Violations), "")
+	return cases
 }
